@@ -648,6 +648,47 @@ theorem PPost.count_length {α} (n : Nat) (p : P α) : PPost (P.count n p) (fun 
   have := countGo_length p w n s 0 [] l s' h
   simpa using this
 
+/-- `bind` where the continuation is only good for the values the first reader can produce -/
+theorem PGood.bind_post {α β} {p : P α} {f : α → P β} {Q : α → Prop}
+    (hp : PGood p) (hq : PPost p Q) (hf : ∀ a, Q a → PGood (f a)) : PGood (p >>= f) := by
+  intro w s hs
+  obtain ⟨⟨g1, g2⟩, hi⟩ := hp w s hs
+  rw [P.bind_def]; unfold P.bind
+  split
+  · next a s' k heq =>
+    rw [heq] at hi g2
+    have hqa : Q a := hq w s a s' (by rw [heq])
+    obtain ⟨⟨f1, f2⟩, fi⟩ := hf a hqa w s' (hi a s' rfl)
+    refine ⟨⟨?_, ?_⟩, ?_⟩
+    · intro ⟨x, hx⟩; exact f1 ⟨x, hx⟩
+    · exact Nat.max_le.mpr ⟨g2, f2⟩
+    · intro b s'' h; exact fi b s'' h
+  · next e k heq =>
+    rw [heq] at g2
+    exact ⟨⟨not_faults_fail _ _, g2⟩, by intro a s' h; cases h⟩
+  · next x k heq =>
+    rw [heq] at g1
+    exact absurd ⟨x, rfl⟩ g1
+
+theorem PPost.bytes_length (n : Nat) : PPost (P.bytes n) (fun l => l.length = n) := by
+  intro w s a s' h; unfold P.bytes at h
+  simp only at h
+  split at h
+  · next hl => cases h; exact hl
+  · cases h
+
+theorem PPost.failP {α} {Q : α → Prop} : PPost (P.failP : P α) Q := by
+  intro w s a s' h; cases h
+
+theorem PPost.ite {α} {c : Prop} [Decidable c] {p q : P α} {Q : α → Prop}
+    (hp : c → PPost p Q) (hq : ¬ c → PPost q Q) : PPost (if c then p else q) Q := by
+  split
+  · next h => exact hp h
+  · next h => exact hq h
+
+theorem PPost.lift_panic {α} {Q : α → Prop} (f : Fault) : PPost (P.lift (Res.panic f : Res α)) Q := by
+  intro w s a s' h; cases h
+
 /-- on success the reader consumed at least `n` bytes of what was in front of the cursor -/
 def ConsumesN {α} (n : Nat) (p : P α) : Prop :=
   ∀ w s a s', (p w s).out = .ok (a, s') → s'.rest.length + n ≤ s.rest.length
